@@ -417,17 +417,37 @@ func rulePlayLoop(c *Ctx) {
 		dom(K, A, "Apply runs before the key is read")
 		dom(A, N, "Note is written before the pitches are computed")
 		// all inside one loop of Write over all instances
-		l := enclosingRangeLoop(li(U).at(0).Block())
-		inL := func(rc *rcall) bool { return l.blocks[li(rc).at(0).Block()] }
+		// (the loop may have moved, with its body, into a helper Write calls: it is looked for at every level the four
+		// steps share, the deepest first)
+		shared := 0
+		for shared < len(U.chain) && shared < len(N.chain) && shared < len(V.chain) && shared < len(R.chain) && U.chain[shared] == N.chain[shared] && U.chain[shared] == V.chain[shared] && U.chain[shared] == R.chain[shared] {
+			shared++
+		}
+		var l *loopInfo
+		ld := 0
+		for d := shared; d >= 0 && l == nil; d-- {
+			if ll := enclosingRangeLoop(li(U).at(d).Block()); ll != nil && ll.blocks[li(N).at(d).Block()] && ll.blocks[li(V).at(d).Block()] && ll.blocks[li(R).at(d).Block()] {
+				l, ld = ll, d
+			}
+		}
+		inL := func(rc *rcall) bool {
+			return l != nil && len(rc.chain) >= ld && sameChain(rc.chain[:ld], U.chain[:ld]) && l.blocks[li(rc).at(ld).Block()]
+		}
 		if l == nil || !inL(N) || !inL(V) || !inL(R) {
 			problems = append(problems, "Validate/update/Rest/Note are not in one loop over the instances")
 		} else {
-			if call, ok := l.bound.(*ssa.Call); !ok || calleeName(&call.Call) != "builtin.len" || call.Call.Args[0] != ssa.Value(fn.Params[2]) {
+			loopChain := U.chain[:ld]
+			covers := false
+			if call, ok := l.bound.(*ssa.Call); ok && calleeName(&call.Call) == "builtin.len" {
+				b := tr.trace(lval{call.Call.Args[0], l.header.Parent(), loopChain})
+				covers = len(b.chain) == 0 && b.v == ssa.Value(fn.Params[2])
+			}
+			if !covers {
 				problems = append(problems, "the loop does not cover all instances")
 			}
 			// same instance everywhere: Validate's and update's argument and the chord come from instances[index]
 			for label, v := range map[string]lval{"Validate": arg(V, 0), "update": arg(U, 1), "Apply": arg(A, 1)} {
-				if !derivesFromElementL(tr, v, fn.Params[2], l.index) {
+				if !derivesFromElementL(tr, v, fn.Params[2], l.index, loopChain) {
 					problems = append(problems, label+" is not applied to instances[i]")
 				}
 			}
@@ -795,7 +815,7 @@ func (c *Ctx) derivesFromElement(v ssa.Value, slice ssa.Value, index ssa.Value) 
 }
 
 // derivesFromElementL: the located value is (a load / field / copy of) slice[index] of the root function.
-func derivesFromElementL(tr *tracer, l lval, slice *ssa.Parameter, index ssa.Value) bool {
+func derivesFromElementL(tr *tracer, l lval, slice *ssa.Parameter, index ssa.Value, loopChain []ssa.CallInstruction) bool {
 	seen := map[ssa.Value]bool{}
 	var walk func(x lval, d int) bool
 	walk = func(x lval, d int) bool {
@@ -807,10 +827,10 @@ func derivesFromElementL(tr *tracer, l lval, slice *ssa.Parameter, index ssa.Val
 		switch y := x.v.(type) {
 		case *ssa.IndexAddr:
 			b := tr.trace(x.with(y.X))
-			return len(x.chain) == 0 && len(b.chain) == 0 && b.v == ssa.Value(slice) && y.Index == index
+			return sameChain(x.chain, loopChain) && len(b.chain) == 0 && b.v == ssa.Value(slice) && y.Index == index
 		case *ssa.Index:
 			b := tr.trace(x.with(y.X))
-			return len(x.chain) == 0 && len(b.chain) == 0 && b.v == ssa.Value(slice) && y.Index == index
+			return sameChain(x.chain, loopChain) && len(b.chain) == 0 && b.v == ssa.Value(slice) && y.Index == index
 		case *ssa.UnOp:
 			return walk(x.with(y.X), d+1)
 		case *ssa.FieldAddr:
